@@ -25,7 +25,7 @@ func (w *World) Serve(q *Req) {
 	q.Local.Init(q.PlannedCancel, func() {
 		q.AsyncCancelAt = q.Local.CIdx
 		q.ev(EvCancel, 0, 0, SiteName(q.Local.CancelSite))
-		cancel()
+		q.rawCancel() // the request's current context (a handler may have installed a derived one)
 	})
 	h := http.Header{"X-Req": {q.Name}}
 	for _, kv := range q.Hdr {
@@ -57,11 +57,21 @@ func (w *World) Serve(q *Req) {
 	q.Served = true
 }
 
+// replaceCancel makes later cancels (asynchronous or by a handler) hit the derived context a
+// handler has just installed as the request's context.
+//
+//go:norace
+func (q *Req) replaceCancel(c func()) { q.rawCancel = c }
+
 // DescribePanic renders a recovered value without fmt.
 func DescribePanic(p interface{}) string {
 	switch v := p.(type) {
 	case string:
 		return "string:" + v
+	case *fragileErr:
+		return "error-with-panicking-Error()"
+	case errList:
+		return "slice-typed-error:" + v[0]
 	case error:
 		return "error:" + v.Error()
 	case panicStruct:
@@ -160,4 +170,4 @@ func (q *Req) DescribeProgs() []string {
 
 // OpNames for reports.
 var OpNames = []string{"yield", "writeHeader", "write", "flush", "next", "nextSwallow", "cancel", "mapExtra", "seeExtra", "panic", "echo",
-	"mark", "checkMark", "setHeader", "before", "render", "redirect", "status", "cookie", "seeSvc", "seeHeaders"}
+	"mark", "checkMark", "setHeader", "before", "render", "redirect", "status", "cookie", "seeSvc", "seeHeaders", "replaceCtx"}
